@@ -25,6 +25,9 @@ package sweeper
 
 //@ func (s *Sweeper) sweep$2
 //@   noswallow
+//@   loop 0 ghost loc_deleted := 0
+//@   after_call lmdb.(*Txn).Del#0 ghost loc_deleted := 1
+//@   loop 0 step every_expired_marker_is_removed: wfHeader(ls.Val()) && hdrFlags(ls.Val()) & 1 != 0 && hdrTS(ls.Val()) < uint64(cutoffTS) ==> ghost_loc_deleted == 1
 //@   loop 0 invariant not_failed: ghost_loc_failed == 0
 //@   at_call lmdb.(*Txn).OpenDBI#0 assert same_dbi: !hasPrefix(arg1, "_sync") ==> s.schemaTracksChanges
 //@   at_call lmdb.(*Txn).Del#0 assert scanned_entry: sameSlice(arg2, ls.Key()) && sameSlice(arg3, ls.Val())
